@@ -22,7 +22,7 @@ MODEL_NEEDS_IMPL = True
 SHARD = 24
 SIZES = {'quick': 900, 'thorough': 6000, 'search': 1500}
 _R4 = "; round-four features, each in about 1/3 of the problems and from its own forked random stream: 2-4 extra jobs with REPLACEMENT tasks (also mixed with pickups / services / shipments), REQUIRED breaks (exact time or offset interval, 1-2 per shift, on shifts without optional breaks and reloads; documents show them as break activities inside a stop or as stops without location), VICINITY CLUSTERING (plan.clustering with the vehicles' profile, visiting continue / return, serving original with parking 0-10, thresholds taken from the matrix, 3-5 extra single-task jobs at a pair of near locations; not together with breaks, reloads, errorCodes or general routing data)"
-_R5 = '; round-five features, each from its own forked random stream: RECHARGE STATIONS in about 1/3 of the problems without required breaks / clustering (recharges.maxDistance = the length of a random 2-4 leg walk from the shift start, so that tours exactly at the limit occur; 1-3 stations per shift with location, duration 0-15, sometimes a time window / tag; combined with reloads, optional breaks, capacity dimensions, errorCodes, general routing data), SHARED RELOAD RESOURCES in about 2/3 of the problems with reloads (fleet.resources with 1-2 small capacity vectors, resourceId on about 3/4 of the reloads of all shifts)'
+_R5 = '; round-five features, each from its own forked random stream: RECHARGE STATIONS in about 1/3 of the problems without required breaks / clustering (recharges.maxDistance = the length of a random 2-4 leg walk from the shift start, so that tours exactly at the limit occur; 1-3 stations per shift with location, duration 0-15, sometimes a time window / tag; combined with reloads, optional breaks, capacity dimensions, errorCodes, general routing data), SHARED RELOAD RESOURCES in about 2/3 of the problems with reloads (fleet.resources with 1-2 small capacity vectors, resourceId on about 3/4 of the reloads of all shifts), REQUIRED breaks on shifts that also have reloads in about half of the remaining problems with reloads (start.latest = start.earliest); plus n/60 >= 10 cases of the moved-departure family (one vehicle whose shift start has no latest, exact-time required breaks that are over before any job window opens: the solver departs after them and nothing of them may be reported)'
 RULE = ('cases: generated pragmatic problems (3-10 jobs incl. multi jobs, 1-2 places with equal or different locations / durations '
         '/ tags, 1-2 windows; 1-3 vehicle types, open and closed ends, start latest, integer fixed/distance/time prices incl. 0; '
         'metric and non-metric integer matrices with zero-distance location pairs' + _R4 + _R5 + ') x 3 configurations each. non-trivial = distinct '
